@@ -867,6 +867,7 @@ func runKSInterleave(t *testing.T, s ksIlSc) (res verifsim.Result) {
 	}
 	var puts []*putRec
 	resetDone := false
+	cancelFired := false // the reset's context was cancelled before ResetCids returned
 	var resetErr error
 	out := verifsim.Bubble(t, func() {
 		ctx := context.Background()
@@ -965,6 +966,9 @@ func runKSInterleave(t *testing.T, s ksIlSc) (res verifsim.Result) {
 				break
 			}
 			if s.CancelAt > 0 && step == s.CancelAt {
+				if !resetDone {
+					cancelFired = true
+				}
 				cancel()
 				continue
 			}
@@ -1090,7 +1094,10 @@ func runKSInterleave(t *testing.T, s ksIlSc) (res verifsim.Result) {
 				}
 				return true
 			}
-			wantNew := resetErr == nil
+			// A reset that returns nil has replaced the contents - unless its context was cancelled while it ran: the property allows
+			// "the complete previous set" after a cancellation, and a cancellation that lands in the final (worker-side) step aborts
+			// the swap there although ResetCids itself has already decided to return nil (it does not look at that step's answer).
+			wantNew := resetErr == nil && !cancelFired
 			if !(eq(nw) || (!wantNew && eq(old))) {
 				res.Fail("old-or-new", "C20/interleave/mixture", "%s: contents %v are neither new∪puts nor (reset failed: %v) old∪puts; old %v new %v puts %v", when, got, resetErr, old, nw, must)
 				return false
